@@ -1,8 +1,9 @@
-From BT Require Import Base.Util Base.Float Generated.Consts Model.RTree Model.BBIFile Model.BigWigWrite Model.BBIRead
+From BT Require Import Base.Util Base.LE Base.Float Generated.Consts Model.RTree Model.BBIFile Model.BigWigWrite Model.BBIRead
   Proofs.RTreeAbs Proofs.RTreeBuild Proofs.RTreeCodec Proofs.RTreeLayout
   Proofs.BigWigQuery Proofs.ZoomLoop Proofs.ZoomInv Proofs.ZoomThms Proofs.ZoomBwLevels Proofs.ZoomSections
   Proofs.ZoomQuery Proofs.ZoomOld Proofs.ZoomExact Proofs.ZoomSorted
-  Proofs.BigWigFile Proofs.BigWigFileRoundTrip Proofs.BigWigFileThms Proofs.ZoomFile.
+  Proofs.BigWigFile Proofs.BigWigFileRoundTrip Proofs.BigWigFileThms Proofs.ZoomFile
+  Proofs.FileRegions Proofs.ZoomReadCodec Proofs.ZoomReadRegions Proofs.ZoomReadFile.
 From Coq Require Import Sorting.Sorted.
 From BT Require Properties.C07.
 Local Open Scope N_scope.
@@ -97,3 +98,52 @@ Check (C07.C07_file_levels_increasing_two_pass : forall fp o sizes inp bs,
   opts_ok o -> input_ok sizes inp -> Nlen bs < U64 -> manual_u32 o ->
   bw_write_multipass fp o sizes inp = Ok bs ->
   exists i, read_info bs = Ok i /\ inc_from 0 (map zh_res (i_zooms i)) /\ Nlen (i_zooms i) <= MAX_ZOOM_LEVELS).
+Check (C07.C07_f32_pattern_fits : forall x, bits_of_f32 x < 4294967296).
+Check (C07.C07_zoom_record_codec : forall fp recs, Forall zrec_u32 recs ->
+  parse_zrecs false (length recs) (flat_map (zrec_bytes fp) recs) = map (zrec_read fp) recs).
+Check (C07.C07_zoom_block_read : forall infl i bs, h_big (i_hdr i) = false -> h_ubuf (i_hdr i) = 0 ->
+  forall fp b recs q s e,
+  slice bs (fst b) (N.to_nat (snd b)) = Some (flat_map (zrec_bytes fp) recs) -> Forall zrec_u32 recs ->
+  zoom_block_values infl i bs b q s e = Ok (Some (map (zrec_read fp) (filter (zkeep q s e) recs)))).
+Check (C07.C07_level_regions : forall o ds img zs pos lc zc bytes hdrs,
+  write_zooms_loop o ds pos zs lc zc = Ok (bytes, hdrs) -> has_at img pos bytes ->
+  Forall (level_at o img zs) hdrs).
+Check (C07.C07_level_regions_two_pass : forall o img zs pos bytes hdrs,
+  write_zooms_two_pass o pos zs = Ok (bytes, hdrs) -> has_at img pos bytes ->
+  Forall (level_at o img zs) hdrs).
+Check (C07.C07_file_zoom_query : forall fp o sizes inp bs,
+  opts_ok o -> input_ok sizes inp -> Nlen bs < U64 ->
+  Forall (fun z => z < U32) (zoom_sizes_single o) ->
+  bw_write fp o sizes inp = Ok bs ->
+  exists i, read_info bs = Ok i /\
+    forall (infl : list N -> list N) r c vs s e, In r (map zh_res (i_zooms i)) -> In (c, vs) (runs inp) ->
+      exists id len st, chrom_id i c = Ok id /\ 1 <= r
+        /\ lookup c sizes = Some len /\ wf_vals len vs
+        /\ zoom_chrom fp (o_ips o) r id vs zstate0 = Ok st
+        /\ zoom_interval infl bs i c s e r
+           = Ok (map (zrec_read fp) (filter (ztouch s e) (concat (zs_out st))))).
+Check (C07.C07_file_zoom_query_two_pass : forall fp o sizes inp bs,
+  opts_ok o -> input_ok sizes inp -> Nlen bs < U64 -> manual_u32 o ->
+  bw_write_multipass fp o sizes inp = Ok bs ->
+  exists i, read_info bs = Ok i /\
+    forall (infl : list N -> list N) r c vs s e, In r (map zh_res (i_zooms i)) -> In (c, vs) (runs inp) ->
+      exists id len st, chrom_id i c = Ok id /\ 1 <= r
+        /\ lookup c sizes = Some len /\ wf_vals len vs
+        /\ zoom_chrom fp (o_ips o) r id vs zstate0 = Ok st
+        /\ zoom_interval infl bs i c s e r
+           = Ok (map (zrec_read fp) (filter (ztouch s e) (concat (zs_out st))))).
+Check (C07.C07_file_zoom_query_complete : forall fp s e (R : list zrec),
+  let ans := map (zrec_read fp) (filter (ztouch s e) R) in
+  (forall z, In z R -> s < z_end z -> z_start z < e -> In (zrec_read fp z) ans)
+  /\ (forall z', In z' ans -> exists z, In z R /\ z' = zrec_read fp z /\ s <= z_end z /\ z_start z <= e)
+  /\ map (fun z => (z_chrom z, z_start z, z_end z, cov z)) ans
+     = map (fun z => (z_chrom z, z_start z, z_end z, cov z)) (filter (ztouch s e) R)).
+(* the definitions the file theorem is stated with, pinned by unfolding *)
+Check (eq_refl : ztouch = fun s e z => (s <=? z_end z) && (z_start z <=? e)).
+Check (eq_refl : zrec_read = fun fp z =>
+  {| z_chrom := z_chrom z; z_start := z_start z; z_end := z_end z;
+     z_sum := {| su_items := 0; su_bases := su_bases (z_sum z);
+                 su_min := f32_of_bits (bits_of_f32 (to_f32 fp (su_min (z_sum z))));
+                 su_max := f32_of_bits (bits_of_f32 (to_f32 fp (su_max (z_sum z))));
+                 su_sum := f32_of_bits (bits_of_f32 (to_f32 fp (su_sum (z_sum z))));
+                 su_sumsq := f32_of_bits (bits_of_f32 (to_f32 fp (su_sumsq (z_sum z)))) |} |}).
